@@ -32,6 +32,9 @@ CONSTANTS NP,         \* at most NP connected peers (np is chosen in Init)
           MaxX,       \* messages about an unrelated hash (reject "X", getdata "Y") per history
           MaxDup,     \* repeated messages per history (a peer sends a second getdata / a second
                       \* reject of the tx, possibly of another class; at most two of a kind per peer)
+          Msgs,       \* reject messages given as (wire reject code, reason) pairs, see SendTxProps:
+                      \* m = (wc-1)*8 + rs.  {} = rejects are given by class only (act.m = 0: the
+                      \* driver picks one of the spellings error.go lists for the class)
           FixRejectFromReplier
 
 VARIABLES np, thr, replies, rej, cnt, closed, armed, verdict, sent, ndelay, nx, ndup,
@@ -61,7 +64,22 @@ Finish(a) ==
   /\ abs' = AbsNext(abs, a, Obs')
   /\ viol' = Viol(abs, Obs, a, abs', Obs')
 
-A(op, p, kind, code) == [op |-> op, p |-> p, kind |-> kind, code |-> code, res |-> "ok"]
+A(op, p, kind, code) == [op |-> op, p |-> p, kind |-> kind, code |-> code, m |-> 0, res |-> "ok"]
+
+\* pushtx/error.go ParseBroadcastError :97-148, case by case: the class the
+\* CODE gives to the reject message m = (wire code wc, reason rs).  The reason
+\* is looked at for RejectDuplicate only.
+CodeClass(m) ==
+  LET wc == WC(m)  rs == RS(m)
+  IN  CASE wc \in {1, 2} -> 1                              \* :103 RejectInvalid, RejectNonstandard
+        [] wc = 3 -> 2                                     \* :106 RejectInsufficientFee
+        [] wc = 4 /\ rs = 1 -> 1                           \* :113 txn-mempool-conflict
+        [] wc = 4 /\ rs = 2 -> 3                           \* :119 txn-already-in-mempool
+        [] wc = 4 /\ rs = 3 -> 4                           \* :125 txn-already-known
+        [] wc = 4 /\ rs = 4 -> 1                           \* :133 already spent
+        [] wc = 4 /\ rs = 5 -> 3                           \* :139 already have transaction
+        [] wc = 4 /\ rs = 6 -> 4                           \* :145 transaction already exists
+        [] OTHER -> 5                                      \* :149 default
 
 \* The query is over once every peer's goroutine has returned.
 EndIfAllClosed(cl, rp, r, c) ==
@@ -94,6 +112,21 @@ Reject(p, c) ==                                            \* :1038
           /\ closed' = closed \cup {p}                     \* closeNow :1059
           /\ EndIfAllClosed(closed', replies, rej', cnt')
   /\ Finish(A("Msg", p, "R", c))
+
+\* The same handler step for a reject given as a concrete (wire code, reason)
+\* message: the bookkeeping sees the class ParseBroadcastError gives it (:1045).
+RejectMsg(p, m) ==
+  LET c == CodeClass(m) IN
+  /\ verdict = 0 /\ MaySend(p, 2)
+  /\ Sent(p, 2)
+  /\ UNCHANGED <<np, thr, replies, armed, ndelay, nx>>
+  /\ IF p \in closed \/ (FixRejectFromReplier /\ p \notin replies)
+     THEN UNCHANGED <<rej, cnt, closed, verdict>>
+     ELSE /\ rej' = [rej EXCEPT ![p] = c]
+          /\ cnt' = [cnt EXCEPT ![c] = @ + 1]
+          /\ closed' = closed \cup {p}
+          /\ EndIfAllClosed(closed', replies, rej', cnt')
+  /\ Finish([A("Msg", p, "R", c) EXCEPT !.m = m])
 
 RejectOther(p) ==                                          \* :1041
   /\ verdict = 0 /\ nx < MaxX
@@ -136,6 +169,7 @@ Init ==
 Next ==
   \/ \E p \in Peers : GetData(p)
   \/ \E p \in Peers : \E c \in Codes : Reject(p, c)
+  \/ \E p \in Peers : \E m \in Msgs : RejectMsg(p, m)
   \/ \E p \in Peers : RejectOther(p)
   \/ \E p \in Peers : RequestOther(p)
   \/ Delay
